@@ -117,6 +117,8 @@ def install(only=None):
                 continue
             setattr(mod, name, val)
             _installed.append((modname, name))
+    if only is None:
+        _sweep()
     je = importlib.import_module("repid._utils.json_encoder")
     if _orig_default is None:
         _orig_default = je._RepidJSONEncoder.default
@@ -130,6 +132,46 @@ def install(only=None):
 
         je._RepidJSONEncoder.default = default
     return list(_installed)
+
+
+# names the sweep leaves alone, with the reason (part of the claim)
+SWEEP_SKIP = {("repid.health_check_server", "time"): "only formats the Date response header (wsgiref needs a float); no property reads it"}
+
+
+def _sweep():
+    """Shadow the clock names in every other module of the package under test.
+
+    The table above names the modules that read the clock today; a change may move such code into
+    another (or a new) module.  Every module of the `repid` package is imported and any module
+    global that *is* the real `datetime.datetime`, `datetime.timedelta` or the `time` module is
+    shadowed by the same stand-ins, so no module of the tree under test reads the wall clock."""
+    import datetime as _dt
+    import pkgutil
+    import time as _time
+    import repid
+    for info in pkgutil.walk_packages(repid.__path__, "repid."):
+        if info.name.startswith("repid.testing"):
+            continue
+        try:
+            importlib.import_module(info.name)
+        except Exception:  # noqa: BLE001  (optional dependency missing)
+            continue
+    for modname, mod in sorted(sys.modules.items()):
+        if mod is None or not (modname == "repid" or modname.startswith("repid.")) or modname.startswith("repid.testing"):
+            continue
+        for name, val in list(vars(mod).items()):
+            if (modname, name) in _installed or (modname, name) in SWEEP_SKIP:
+                continue
+            if val is _dt.datetime:
+                new = VDatetime
+            elif val is _dt.timedelta:
+                new = VTimedelta
+            elif val is _time:
+                new = VTimeModule
+            else:
+                continue
+            setattr(mod, name, new)
+            _installed.append((modname, name))
 
 
 def installed_names():
